@@ -61,7 +61,7 @@ def err_of(e, op):
     if isinstance(e, AttributeError):
         return "err Attr"
     if isinstance(e, ValueError):
-        if op == "set" and "outside the bounds" in str(e):
+        if op in ("set", "iadd") and "outside the bounds" in str(e):
             return "err OutOfBounds"
         return "err Value"
     if type(e) is Exception:
@@ -204,6 +204,14 @@ class ExpImpl:
                 return "ok"
             if k == "set":
                 self.agents[int(w[1])].position = self.pt(w[2:])
+                return "ok"
+            if k == "iadd":
+                ag = self.agents[int(w[1])]
+                ag.position += self.pt(w[2:])
+                return "ok"
+            if k == "poke":
+                p = self.agents[int(w[1])].position  # whatever the getter hands out
+                p[int(w[2])] = int(w[3]) / U
                 return "ok"
             if k == "get":
                 return "ok pos=" + ",".join(to_units(v) for v in self.agents[int(w[1])].position.copy())
@@ -422,6 +430,22 @@ def oracle(sc, obs):
                         bad.append(f"reject-valid: {line} -> {o}")
                     else:
                         sp.pos[a] = v
+            elif k == "iadd":
+                # `agent.position += v` assigns (last assigned value) + v
+                a, dv = int(w[1]), tuple(map(int, w[2:]))
+                if sp.pos.get(a) is not None:
+                    v = sp.assign(tuple(x + d for x, d in zip(sp.pos[a], dv)))
+                    if v is None:
+                        if o == "ok":
+                            bad.append(f"accept-invalid: {line} accepted on a bounded space")
+                        elif o != "err OutOfBounds":
+                            bad.append(f"reject-kind: {line} -> {o}")
+                    elif o != "ok":
+                        bad.append(f"reject-valid: {line} -> {o}")
+                    else:
+                        sp.pos[a] = v
+            elif k == "poke":
+                pass  # a write into what the getter returned is not an assignment: judged by the next `get`
             elif k == "remove":
                 a = int(w[1])
                 if a in sp.pos:
@@ -671,15 +695,49 @@ class Gen:
             v = sp.assign(p)
             if v is not None:
                 sp.pos[a] = v
-        elif k < 0.49:
+        elif k < 0.455:
+            # agent.position += v (the idiom of the boid example); often leaves the space
+            a = self.member()
+            if sp.pos[a] is None:
+                return
+            big = self.rr or R.random() < 0.25
+            dv = []
+            for i in range(self.nd):
+                size = self.bounds[i][1] - self.bounds[i][0]
+                dv.append(R.choice([0, 0, 1, -1, 32, -32, 64, -64, size, -size, size // 2, 2 * size + 1] if big
+                                   else [0, 0, 0, 1, -1, 16, -16, 32, -32]))
+            self.emit(f"iadd {a} {self.fmt(dv)}")
+            v = sp.assign(tuple(x + d for x, d in zip(sp.pos[a], dv)))
+            if v is not None:
+                sp.pos[a] = v
+            if R.random() < 0.5:
+                self.emit(f"get {a}")
+        elif k < 0.47:
+            # a write into whatever `agent.position` returned, then a read
+            a = self.member()
+            j = R.randrange(self.nd) if R.random() < 0.9 else self.nd
+            lo, hi = self.bounds[min(j, self.nd - 1)]
+            self.emit(f"poke {a} {j} {R.choice([lo - 64, hi + 64, lo, hi, lo + (hi - lo) // 2, 12345])}")
+            self.emit(f"get {a}")
+            if R.random() < 0.3:
+                self.emit(f"radius {self.fmt(self.inside_point())} {R.choice([64, 200, 1000])}")
+        elif k < 0.49 and self.removed:
+            # life cycle: calls on an agent object after its remove()
+            a = R.choice(self.removed)
+            self.emit(R.choice([f"get {a}", f"set {a} {self.fmt(self.point(0.2))}", f"remove {a}", f"nir {a} 64", f"nn {a} 1",
+                                f"iadd {a} {self.fmt([1] * self.nd)}", f"poke {a} 0 0",
+                                f"dists {self.fmt(self.inside_point())} : {a}", f"diffs {self.fmt(self.inside_point())} : {a}"]))
+            if R.random() < 0.5:
+                self.emit(R.choice(["agents", f"radius {self.fmt(self.inside_point())} 200"]))
+        elif k < 0.53:
             a = self.member()
             self.emit(f"remove {a}")
             del sp.pos[a]
             sp.order.remove(a)
             self.removed.append(a)
-        elif k < 0.57:
+        elif k < 0.59:
             self.emit(f"get {self.member()}")
-        elif k < 0.62:
+        elif k < 0.63:
             self.emit("agents")
         elif k < 0.72:
             pt = self.inside_point()
